@@ -55,6 +55,7 @@ var props = map[string]propCfg{
 	"C08": {quick: q(3000, 8), thorough: th(15 * time.Minute)},
 	"C14": {quick: q(40, 8), thorough: th(20 * time.Minute)},
 	"C15": {quick: q(30, 8), thorough: th(20 * time.Minute)},
+	"C16": {quick: q(150, 8), thorough: th(20 * time.Minute)},
 	"C18": {quick: q(1500, 8), thorough: th(15 * time.Minute)},
 	"C20": {quick: q(5, 8), thorough: th(30 * time.Minute)},
 }
